@@ -80,7 +80,10 @@ def judge(chk, res, tier, seed, replaying=False):
         "holding": len(rows) - len(failing) - sum(skipped.values()),
         "C04_modify_preserves": {"modify_actions_on_existing_columns": st.get("modify_actions"), "under_its_hypothesis": st.get("modify_under_hypothesis"),
                                  "on_auto_increment_columns": st.get("modify_on_autoinc_column")},
-        "outside_every_known_class": {"judged_migrations": st.get("outside_known_classes"), "holding": st.get("outside_and_holding")}}
+        "outside_every_known_class": {"judged_migrations": st.get("outside_known_classes"), "holding": st.get("outside_and_holding")},
+        "sim_mysql_lemmas": {"actions_in_judged_migrations": st.get("actions_in_judged_migrations"),
+                             "under_a_proved_lemma": st.get("actions_under_a_proved_sim_lemma"),
+                             "proved_kinds": "DeleteTable, AddColumn (plain column), DeleteColumn (column in no constraint), ModifyColumnType/Nullable/Default/Comment (not the auto-increment key), AddConstraint Index/Unique/Check, RemoveConstraint Check, RawSql"}}
     chk.cov["not_judged"] = dict(skipped)
     # open findings: the stored witness must still fail on the implementation and be explained by its own class
     for k in [k for k in known if k.get("status") == "open"]:
